@@ -170,9 +170,11 @@ def run(ctx, col: Collector):
                   f'the table-level PRIMARY KEY clause is not added under the composite-pk predicate alone ({why}): the column renderer suppresses the column-level '
                   f'PRIMARY KEY under that predicate, so pk columns would be declared nowhere', node=ifs[0] if ifs else cb.node, file=cb.file)
         hp = idx.func('pydbml._classes.table', 'Table._has_composite_pk')
-        rets = [norm(n.value).replace(' ', '') for n in walk_no_nested(hp.node) if isinstance(n, ast.Return) and n.value is not None]
-        col.check(rets in (['sum((c.pkforcinself.columns))>1'], ['sum(c.pkforcinself.columns)>1'], ['len([cforcinself.columnsifc.pk])>1']), 'C03-table',
-                  '_has_composite_pk:predicate', 'composite = more than one pk column', f'Table._has_composite_pk returns {rets}', node=hp.node, file=hp.file)
+        rets = [n.value for n in walk_no_nested(hp.node) if isinstance(n, ast.Return) and n.value is not None]
+        st, why = _composite_predicate(hp.node, rets)
+        (col.ok if st == 'ok' else col.bad if st == 'bad' else col.unk)(
+            'C03-table', '_has_composite_pk:predicate',
+            'composite = more than one pk column' if st == 'ok' else f'Table._has_composite_pk {why}', node=hp.node, file=hp.file)
         # CREATE TABLE name
         ss = [s for s in sinks_of(cc) if s.left.rstrip().endswith('CREATE TABLE')]
         col.check(len(ss) == 1 and 'get_full_name_for_sql' in ss[0].wrappers and ss[0].source == ('param', m2), 'C03-table', 'create_components:table-name',
@@ -360,3 +362,50 @@ def keyword_guard(fn: ast.AST, keyword: str):
 def _neg(t):
     from ..cond import neg
     return neg(t)
+
+
+def _pk_count(e: ast.AST, self_name: str) -> bool:
+    """`e` counts the pk columns of self.columns: sum(c.pk for c in cols) / sum(1 for c in cols if c.pk) / len([c for c in cols if c.pk])."""
+    if not (isinstance(e, ast.Call) and isinstance(e.func, ast.Name) and len(e.args) == 1 and not e.keywords):
+        return False
+    a = e.args[0]
+    if not isinstance(a, (ast.GeneratorExp, ast.ListComp)) or len(a.generators) != 1:
+        return False
+    g = a.generators[0]
+    if norm(g.iter) != f'{self_name}.columns' or not isinstance(g.target, ast.Name):
+        return False
+    v = g.target.id
+    conds = [norm(c) for c in g.ifs]
+    if e.func.id == 'sum':
+        if norm(a.elt) in (f'{v}.pk', f'bool({v}.pk)', f'int({v}.pk)') and not conds:
+            return True
+        return isinstance(a.elt, ast.Constant) and a.elt.value == 1 and conds == [f'{v}.pk']
+    if e.func.id == 'len':
+        return isinstance(a, ast.ListComp) and conds == [f'{v}.pk']
+    return False
+
+
+def _composite_predicate(fn: ast.FunctionDef, rets):
+    """('ok'|'bad'|'unk', why) for Table._has_composite_pk: the number of pk columns compared with "more than one"."""
+    self_name = fn.args.args[0].arg if fn.args.args else 'self'
+    if len(rets) != 1:
+        return 'unk', f'has {len(rets)} return statements; the predicate is not read'
+    e = rets[0]
+    # resolve a single-assignment local (count = sum(...); return count > 1)
+    binds = {n.targets[0].id: n.value for n in walk_no_nested(fn) if isinstance(n, ast.Assign) and len(n.targets) == 1 and isinstance(n.targets[0], ast.Name)}
+    def res(x):
+        return binds[x.id] if isinstance(x, ast.Name) and x.id in binds else x
+    e = res(e)
+    if not (isinstance(e, ast.Compare) and len(e.ops) == 1):
+        return 'unk', f'returns `{norm(e)}`, not a comparison of a count'
+    l, r, op = res(e.left), res(e.comparators[0]), e.ops[0]
+    if isinstance(l, ast.Constant) and not isinstance(r, ast.Constant):
+        l, r = r, l
+        op = {ast.Gt: ast.Lt, ast.Lt: ast.Gt, ast.GtE: ast.LtE, ast.LtE: ast.GtE}.get(type(op), type(op))()
+    if not _pk_count(l, self_name) or not (isinstance(r, ast.Constant) and isinstance(r.value, int)):
+        return 'unk', f'returns `{norm(e)}`; the counted quantity is not recognised as the number of pk columns'
+    k = r.value
+    if (isinstance(op, ast.Gt) and k == 1) or (isinstance(op, ast.GtE) and k == 2):
+        return 'ok', ''
+    return 'bad', (f'returns `{norm(e)}`: the table counts as having a composite primary key for a pk-column count other than "more than one", so a single pk column loses '
+                   f'its column-level PRIMARY KEY or several keep theirs')
